@@ -521,6 +521,10 @@ DOMImplementation   *DOMDocumentImpl::getImplementation() const {
 
 DOMNode *DOMDocumentImpl::insertBefore(DOMNode *newChild, DOMNode *refChild)
 {
+    //not really in the specs, but better than nothing
+    if(newChild==0)
+        throw DOMException(DOMException::HIERARCHY_REQUEST_ERR,0, getMemoryManager());
+
     // Only one such child permitted
     if(
         (newChild->getNodeType() == DOMNode::ELEMENT_NODE  && fDocElement!=0)
@@ -546,6 +550,9 @@ DOMNode *DOMDocumentImpl::insertBefore(DOMNode *newChild, DOMNode *refChild)
 
 
 DOMNode* DOMDocumentImpl::replaceChild(DOMNode *newChild, DOMNode *oldChild) {
+    if(oldChild==0)
+        throw DOMException(DOMException::NOT_FOUND_ERR,0, getMemoryManager());
+
     DOMDocumentType* tempDocType = fDocType;
     DOMElement* tempDocElement = fDocElement;
 
